@@ -638,7 +638,11 @@ class _Merger(object):
                                  .format(existing))
         else:
             self.posargs.append(self._concile_meta(existing, other))
-            _add_sources(self.src, existing.name, src)
+            if existing.name == other.name:
+                _add_sources(self.src, existing.name,
+                             self.l.sources, self.r.sources)
+            else:
+                _add_sources(self.src, existing.name, src)
 
     def _merge_unbalanced_pok(
             self, existing, src,
